@@ -85,7 +85,7 @@ var selftestQueries = [][]string{
 	{ // operators, reading, writing, DCG, flags
 		`op(700, xfx, ===), X = (a === b), X =.. L.`, `op(200, xfy, ^^), X = 1 ^^ 2 ^^ 3, X = ^^(A, B).`, `op(0, xfx, ===), catch(atom_to_term_missing, _, true).`,
 		`op(1201, xfx, foo).`, `op(700, abc, foo).`, `op(700, xfx, ',').`, `op(200, xfx, '|').`, `op(1100, xfx, '|').`, `op(700, xfx, []).`, `op(_, xfx, foo).`,
-		`op(700, xfx, [foo, bar]), current_op(P, T, bar).`, `op(200, xf, foo).`, `current_op(P, T, mod).`, `current_op(1200, T, N).`, `current_op(P, xfy, N).`,
+		`op(700, xfx, [foo, bar]), findall(P-T, current_op(P, T, bar), L).`, `op(200, xf, foo).`, `findall(P-T, current_op(P, T, mod), L).`, `findall(T-N, current_op(1200, T, N), L0), sort(L0, L).`, `findall(P-N, current_op(P, xfy, N), L0), sort(L0, L).`,
 		`phrase(greeting, [hello, world]).`, `phrase(greeting, [hello, X]).`, `phrase(digits(Ds), ['1', '2', a], R).`, `phrase(name, L).`, `expand_term((a --> b, [c], {d}, !), X).`, `expand_term((a, [x] --> b), X).`,
 		`current_prolog_flag(bounded, X).`, `current_prolog_flag(max_integer, X).`, `current_prolog_flag(double_quotes, X).`, `set_prolog_flag(double_quotes, atom), current_prolog_flag(double_quotes, X).`,
 		`set_prolog_flag(unknown, fail), nonexistent_abc.`, `set_prolog_flag(foo, bar).`, `current_char_conversion(a, X).`, `write(f(x, "s", 'A b', [1, 2|T], 1.0, -1, - 1, a+b*c, (a, b), {x})), nl.`,
